@@ -96,7 +96,7 @@ Local Open Scope Z_scope.
 (* ------------------------------------------------------------------------------------------------------------- *)
 Lemma k_done_step_ok i v : src_done_step_ok i v = i && v.            Proof. reflexivity. Qed.
 Lemma k_done_stop c s : src_done_stop c s = c || negb s.              Proof. reflexivity. Qed.
-Lemma k_done_status c v : src_done_status c v = if c && v then ST_CONVERGED else ST_FAILED. Proof. reflexivity. Qed.
+Lemma k_done_status c k v : src_done_status c k v = if c && k then ST_CONVERGED else ST_FAILED. Proof. reflexivity. Qed.   (* repo 85997bc *)
 Lemma k_done_ret_stop : src_done_ret_stop = true.                     Proof. reflexivity. Qed.
 Lemma k_done_ret_go : src_done_ret_go = false.                        Proof. reflexivity. Qed.
 Lemma k_vt_loop it : src_vt_loop it = (it >? 0).                      Proof. reflexivity. Qed.
@@ -126,7 +126,7 @@ Proof. reflexivity. Qed.
 Lemma done_step_spec s fc gc i c :
   done_step s fc gc i c =
   if c || negb (i && valid s)
-  then (set_status (set_calls s fc gc) (if c && valid s then ST_CONVERGED else ST_FAILED), true)
+  then (set_status (set_calls s fc gc) (if c && (i && valid s) then ST_CONVERGED else ST_FAILED), true)
   else (set_calls s fc gc, false).
 Proof. reflexivity. Qed.
 
@@ -308,7 +308,7 @@ Definition status_ok (z : Z) : Prop := z = ST_MAX_ITERS \/ z = ST_CONVERGED \/ z
 Lemma step_status w o :
   sstatus (wst (fst (step w o))) = sstatus (wst w) \/
   (exists i c, o = ODone i c /\ snd (step w o) = true /\ (c || negb (i && valid (wst w))) = true /\
-               sstatus (wst (fst (step w o))) = if c && valid (wst w) then ST_CONVERGED else ST_FAILED).
+               sstatus (wst (fst (step w o))) = if c && (i && valid (wst w)) then ST_CONVERGED else ST_FAILED).
 Proof.
   destruct o as [g| |x g f|x g f|x f|i c]; simpl; auto;
     try (destruct g; simpl; auto; fail);
@@ -322,7 +322,7 @@ Proof.
   induction ops as [|o ops IH]; intros w H; [exact H|].
   rewrite run_cons. apply IH.
   destruct (step_status w o) as [E|(i & c & _ & _ & _ & E)]; rewrite E; auto.
-  unfold status_ok. destruct (c && valid (wst w)); auto.
+  unfold status_ok. destruct (c && (i && valid (wst w))); auto.
 Qed.
 
 Lemma run_converged ops : forall w,
@@ -337,6 +337,17 @@ Proof.
     + destruct (IH (fst (step w o))) as [j Hj]; auto.
       * rewrite E. simpl. discriminate.
       * exists j. right. exact Hj.
+Qed.
+
+(* repo 85997bc: `converged` is only ever set by a done(state, iter_ok = TRUE, converged = true) call *)
+Lemma run_converged_ok ops : forall w,
+  sstatus (wst w) <> ST_CONVERGED -> sstatus (wst (run w ops)) = ST_CONVERGED -> In (ODone true true) ops.
+Proof.
+  induction ops as [|o ops IH]; intros w N H; [contradiction|].
+  rewrite run_cons in H.
+  destruct (step_status w o) as [E|(i & c & Eo & _ & _ & E)].
+  - right. apply (IH _ ltac:(rewrite E; exact N) H).
+  - destruct c, i; try (left; auto; fail); right; apply (IH (fst (step w o))); auto; rewrite E; simpl; discriminate.
 Qed.
 
 Lemma run_failed ops : forall w,
@@ -354,13 +365,19 @@ Lemma done_decision s fc gc i c :
   snd (done_step s fc gc i c) = c || negb (i && valid s) /\
   (snd (done_step s fc gc i c) = false -> sstatus (fst (done_step s fc gc i c)) = sstatus s /\ valid s = true /\ i = true /\ c = false) /\
   (snd (done_step s fc gc i c) = true ->
-     sstatus (fst (done_step s fc gc i c)) = if c && valid s then ST_CONVERGED else ST_FAILED) /\
+     sstatus (fst (done_step s fc gc i c)) = if c && (i && valid s) then ST_CONVERGED else ST_FAILED) /\
   sfcalls (fst (done_step s fc gc i c)) = fc /\ sgcalls (fst (done_step s fc gc i c)) = gc /\
   sx (fst (done_step s fc gc i c)) = sx s /\ sfx (fst (done_step s fc gc i c)) = sfx s /\
   sgx (fst (done_step s fc gc i c)) = sgx s.
 Proof.
   rewrite done_step_spec. destruct c, i, (valid s) eqn:V; simpl; repeat split; auto; discriminate.
 Qed.
+
+(* what repo commit 85997bc excludes: before it, a done(state, iter_ok = false, converged = true) call on a valid state
+   reported `converged` (the kernel-free reference of the old decision next to the current one) *)
+Lemma done_prefix_converged_after_failed_iteration :
+  exists s, valid s = true /\ done_ref_prefix s false true = (true, ST_CONVERGED) /\ done_ref s false true = (true, ST_FAILED).
+Proof. exists (mkS [] 10%float [2%float] true 0 1 1 []). vm_compute. repeat split; reflexivity. Qed.
 
 Lemma done_ref_spec s fc gc i c :
   done_ref s i c = (snd (done_step s fc gc i c), sstatus (fst (done_step s fc gc i c))).
@@ -451,7 +468,7 @@ Qed.
 (* ------------------------------------------------------------------------------------------------------------- *)
 Lemma event_ok_spec e : event_ok e = true ->
   ev_ret e = ev_conv e || negb (ev_iter_ok e && valid (ev_s e)) /\
-  ev_status' e = (if ev_ret e then (if ev_conv e && valid (ev_s e) then ST_CONVERGED else ST_FAILED) else sstatus (ev_s e)) /\
+  ev_status' e = (if ev_ret e then (if ev_conv e && (ev_iter_ok e && valid (ev_s e)) then ST_CONVERGED else ST_FAILED) else sstatus (ev_s e)) /\
   ev_fcalls' e = ev_fc e /\ ev_gcalls' e = ev_gc e /\ ev_same e = true.
 Proof.
   unfold event_ok.
@@ -536,7 +553,7 @@ Lemma accept_status k eps evs r : accept k eps evs r = true ->
   status_ok (sstatus r) /\
   (sstatus r = ST_CONVERGED ->
      exists e, In e evs /\ same_state r (ev_after e) = true /\ ev_conv e = true /\ ev_ret e = true /\
-               valid (ev_s e) = true) /\
+               valid (ev_s e) = true /\ ev_iter_ok e = true) /\
   (sstatus r = ST_FAILED ->
      exists e, In e evs /\ same_state r (ev_after e) = true /\
                (ev_iter_ok e = false \/ valid (ev_s e) = false)).
@@ -548,16 +565,12 @@ Proof.
   - destruct (All e I) as (Ok & St & _). destruct (event_ok_spec e Ok) as (Rt & St' & _).
     destruct (same_state_status _ _ S) as (Es & _). simpl in Es. rewrite St' in Es.
     destruct (ev_ret e) eqn:Re.
-    + destruct (ev_conv e) eqn:Ce; destruct (valid (ev_s e)) eqn:Ve; simpl in Es.
-      * split; [right; left; exact Es|]. split; [intros _; exists e; auto|].
-        intros F. rewrite Es in F. discriminate.
-      * split; [right; right; exact Es|]. split; [intros F; rewrite Es in F; discriminate|].
-        intros _. exists e. auto.
-      * split; [right; right; exact Es|]. split; [intros F; rewrite Es in F; discriminate|].
-        intros _. exists e. repeat split; auto.
-        simpl in Rt. symmetry in Rt. apply negb_true_iff, andb_false_iff in Rt. destruct Rt; auto. discriminate.
-      * split; [right; right; exact Es|]. split; [intros F; rewrite Es in F; discriminate|].
-        intros _. exists e. auto.
+    + destruct (ev_conv e) eqn:Ce; destruct (ev_iter_ok e) eqn:Ie; destruct (valid (ev_s e)) eqn:Ve; simpl in Es, Rt;
+        try discriminate Rt;
+        try (split; [right; left; exact Es|]; split; [intros _; exists e; repeat split; auto|];
+             intros F; rewrite Es in F; discriminate);
+        (split; [right; right; exact Es|]; split; [intros F; rewrite Es in F; discriminate|];
+         intros _; exists e; repeat split; auto).
     + rewrite St in Es. split; [left; exact Es|]. split; intros F; rewrite Es in F; discriminate.
   - split; [left; exact S|]. split; intros F; rewrite S in F; discriminate.
 Qed.
@@ -576,10 +589,10 @@ Proof. unfold valid. rewrite !andb_true_iff. tauto. Qed.
 (* C01: the converged flag of a line-search trace is the recomputed criterion *)
 Lemma accept_truthful k eps evs r : accept k eps evs r = true -> is_ls k = true -> sstatus r = ST_CONVERGED ->
   exists e, In e evs /\ same_state r (ev_after e) = true /\ ev_conv e = true /\ valid (ev_s e) = true /\
-            PrimFloat.ltb (gradient_test (ev_s e)) eps = true.
+            PrimFloat.ltb (gradient_test (ev_s e)) eps = true /\ ev_iter_ok e = true.
 Proof.
   intros H L S. destruct (accept_status _ _ _ _ H) as (_ & C & _).
-  destruct (C S) as (e & I & Sm & Cv & _ & Vl).
+  destruct (C S) as (e & I & Sm & Cv & _ & Vl & Ik).
   unfold accept in H. rewrite !andb_true_iff in H. destruct H as ((_ & HE) & _).
   pose proof (accept_events_all _ _ _ _ HE eq_refl) as All. rewrite Forall_forall in All.
   destruct (All e I) as (_ & _ & Fl). specialize (Fl L). unfold ls_flag_ok in Fl.
@@ -632,7 +645,7 @@ Proof.
   assert (Val : forall e, In e evs -> same_state r (ev_after e) = true -> valid (ev_s e) = true).
   { intros e I Sm. destruct (All e I) as (Ok & St & _). destruct (event_ok_spec e Ok) as (Rt & St' & _).
     destruct (same_state_status _ _ Sm) as (Es & _). simpl in Es. rewrite St', S in Es.
-    destruct (ev_ret e) eqn:Re; [destruct (ev_conv e && valid (ev_s e)); discriminate|].
+    destruct (ev_ret e) eqn:Re; [destruct (ev_conv e && (ev_iter_ok e && valid (ev_s e))); discriminate|].
     symmetry in Rt. apply orb_false_iff in Rt. destruct Rt as (_ & Rt).
     apply negb_false_iff, andb_true_iff in Rt. tauto. }
   unfold accept_return in HR.
@@ -654,7 +667,7 @@ Lemma accept_not_failed_valid k eps evs r : accept k eps evs r = true -> k <> KL
 Proof.
   intros H NK NE NF.
   destruct (accept_status _ _ _ _ H) as (SO & C & _).
-  destruct SO as [S|[S|S]]; [|destruct (C S) as (e & I & Sm & _ & _ & V); exists e; auto|contradiction].
+  destruct SO as [S|[S|S]]; [|destruct (C S) as (e & I & Sm & _ & _ & V & _); exists e; auto|contradiction].
   eapply accept_go_on_valid; eauto.
 Qed.
 
